@@ -10,6 +10,7 @@ M4: free-running submitters/waiters with random yields and dynamic qt_sinc_expec
 import json
 import time
 from .. import core
+from . import _c10_extra
 
 PREF = 1024
 OPNAMES = ["add8", "max8", "xor8", "min8", "add64"]
@@ -553,6 +554,7 @@ def run(ctx):
             ctx.violation("broken", what, {"theorem_or_correspondence": "impl != Sinc.Model (micro-step replay)" if mismatches else pr["file"],
                                            "first_mismatch": mismatches[0] if mismatches else None, "coq_log": pr["log"][-1500:],
                                            "known_class_failures": {s: w for s, (w, c) in known.items()}}, no_input=True)
+    _c10_extra.run_extra(ctx, quick)     # extension S: resize / reset at any moment / fini / destroy / init / tmpdata
 
 
 def replay(ctx, path):
